@@ -85,7 +85,11 @@ impl Cfg {
                 // default configuration (all layers), the unwanted ones disabled
                 let mut c = ArchiveWriterConfig::default();
                 for l in [Layers::COMPRESS, Layers::ENCRYPT] {
-                    if !want.contains(l) {
+                    if want.contains(l) {
+                        // enabling a layer that is already on changes nothing
+                        c.enable_layer(l);
+                    } else {
+                        c.disable_layer(l);
                         c.disable_layer(l);
                     }
                 }
